@@ -34,7 +34,9 @@ func (n nmVertexSorter) Len() int {
 }
 
 func (n nmVertexSorter) Less(i, j int) bool {
-	return n.values[i] < n.values[j]
+	// Order NaN values last so that the ordering is total
+	// and a NaN vertex is never taken for the best one.
+	return n.values[i] < n.values[j] || (math.IsNaN(n.values[j]) && !math.IsNaN(n.values[i]))
 }
 
 func (n nmVertexSorter) Swap(i, j int) {
